@@ -292,5 +292,11 @@ def run(ctx, facts):
     ctx.rule("COUNTER", C04.RULES["COUNTER"])
     ctx.rule("DELEG", C04.RULES["DELEG"])
     C04._counter(ctx, facts)
+    # a position holds the minimum over items of (r + j) only if every item's draw loop runs until no register can improve:
+    # the histogram bound a_upper must be right from the constructor on and follow every register move
+    ctx.rule("HISTO", C04.RULES["HISTO"])
+    ctx.rule("EXIT", C04.RULES["EXIT"])
+    C04._histo(ctx, facts, C04.SMH + "sketch", "smh")
+    C04._exit_aupper(ctx, facts, C04.SMH + "sketch")
     C04.deleg_slice(ctx, facts, C04.SMH + "sketch_slice")
     C04.deleg_slice(ctx, facts, C04.SS + "sketch_slice")
